@@ -14,6 +14,7 @@ import (
 	"os"
 	"regexp"
 	"runtime"
+	"sort"
 	"strings"
 	"sync"
 	"sync/atomic"
@@ -57,8 +58,9 @@ type History struct {
 	DebugBytes                                       int64
 	Races                                            int
 
-	AutoParks   []AutoPark // parks at inserted yield points (instr tier)
-	AutoSkipped int        // inserted yield points passed with a mutex of the library held (never parked at)
+	AutoParks      []AutoPark // parks at inserted yield points (instr tier)
+	AutoOverBudget int        // inserted yield points passed after the run's park budget was used up
+	AutoSkipped    int        // inserted yield points passed with a mutex of the library held (never parked at)
 }
 
 type AutoPark struct {
@@ -67,6 +69,7 @@ type AutoPark struct {
 }
 
 type logRec struct {
+	at     int64
 	format string
 	args   []interface{}
 	ln     bool
@@ -81,7 +84,7 @@ type recLogger struct {
 
 func (l *recLogger) Printf(format string, v ...interface{}) {
 	l.mu.Lock()
-	l.recs = append(l.recs, logRec{format: format, args: v})
+	l.recs = append(l.recs, logRec{at: time.Now().UnixNano(), format: format, args: v})
 	l.mu.Unlock()
 	if l.park > 0 {
 		// a slow log sink (the library calls it with no lock held)
@@ -91,20 +94,36 @@ func (l *recLogger) Printf(format string, v ...interface{}) {
 
 func (l *recLogger) Println(v ...interface{}) {
 	l.mu.Lock()
-	l.recs = append(l.recs, logRec{args: v, ln: true})
+	l.recs = append(l.recs, logRec{at: time.Now().UnixNano(), args: v, ln: true})
 	l.mu.Unlock()
 }
 
 func (l *recLogger) lines() []string {
 	l.mu.Lock()
 	defer l.mu.Unlock()
-	var out []string
+	// Lines of one instant are put in the order of their text: which of two connections
+	// Server.Close reaches first (it walks a Go map) must not show in the event log.
+	type tl struct {
+		at int64
+		s  string
+	}
+	var ls []tl
 	for _, r := range l.recs {
 		if r.ln {
-			out = append(out, fmt.Sprintln(r.args...))
+			ls = append(ls, tl{r.at, fmt.Sprintln(r.args...)})
 		} else {
-			out = append(out, fmt.Sprintf(r.format, r.args...))
+			ls = append(ls, tl{r.at, fmt.Sprintf(r.format, r.args...)})
 		}
+	}
+	sort.SliceStable(ls, func(i, j int) bool {
+		if ls[i].at != ls[j].at {
+			return ls[i].at < ls[j].at
+		}
+		return ls[i].s < ls[j].s
+	})
+	var out []string
+	for _, x := range ls {
+		out = append(out, x.s)
 	}
 	return out
 }
